@@ -129,6 +129,11 @@ def dump_obj(o):
         return dict(type="cond", head=(diag, o.R, o.Dy, o.Dx),
                     fields={"M": _np(o.M), "b": _np(o.b), "Sigma": _np(o.Sigma), "Lambda": _np(o.Lambda),
                             "ln_det_Sigma": _np(o.ln_det_Sigma)})
+    # [trunc] truncated measures / densities (gaussian_toolbox/experimental/truncated_measure.py)
+    from machine_trunc import dump_trunc
+    d = dump_trunc(o)
+    if d is not None:
+        return d
     if o is None:
         return dict(type="arr", head=(0,), fields={"data": np.zeros(0)})
     raise TypeError(f"cannot dump {type(o)}")
@@ -153,6 +158,8 @@ def parse_dump(tokens):
     elif t == "feat":   # [approx-feature]
         from machine_approx import parse_feature_head
         head, pos = parse_feature_head(tokens)
+    elif t == "trunc":   # [trunc]
+        head = (tokens[1], int(tokens[2])); pos = 3
     elif t == "empty":
         return dict(type="empty", head=(), fields={})
     elif t == "hetero":  # [hetero]
